@@ -1,4 +1,7 @@
 import TM.Term
+import TM.Keys
+import TM.Mouse
+import TM.Stream
 /-!
 # Driver — line-protocol executable running the model in lock-step with the harness.
 
@@ -123,7 +126,14 @@ partial def advance (wt : WidthTable) (d : DState) (target : Nat) (evs : List Ev
       -- a text write on the second cell of a wide character under the `keep` policy
       let sc := d.t.scr
       let k : Bool := match tk with
-        | .text _ _ => d.t.pol == .keep && contAt (sc.row sc.cy) sc.cx
+        | .text _ cp =>
+          -- where the character will land (the edge handling of `Scr.put`)
+          let w0 := wt.lookup cp
+          let w := if max w0 1 > sc.w then 1 else max w0 1
+          let s1 := if sc.cx + w > sc.w then
+                      (if sc.wrap then ({ sc with cx := 0 } : Scr).lineDown else { sc with cx := sc.w - w })
+                    else sc
+          d.t.pol == .keep && contAt (s1.row s1.cy) s1.cx
         | _ => false
       advance wt { d with t := t', pending := d.pending.drop n, consumed := d.consumed + n } target (evs ++ e)
         (tags ++ [if k then "tK" else tokTag tk])
@@ -142,6 +152,22 @@ partial def loop (wt : WidthTable) (h : IO.FS.Stream) (d : DState) : IO Unit := 
     match bytesOfHex hx with
     | some bs => loop wt h { d with pending := d.pending ++ bs }
     | none => IO.println "bad-hex"; loop wt h d
+  | ["adv", n, "eof"] =>
+    -- the backend is exhausted: the step may have read an incomplete control sequence to the end
+    let (d1, evs, tags, ok) := advance wt d n.toNat! [] []
+    let (d', ok) :=
+      if ok then (d1, true) else
+        match d1.pending with
+        | b :: _ =>
+          if !isPrintableByte b && d1.consumed + d1.pending.length = n.toNat! then
+            ({ d1 with consumed := n.toNat!, pending := [] }, true)
+          else (d1, false)
+        | [] => (d1, false)
+    if !ok then
+      (← IO.getStdout).putStrLn s!"X framing consumed={d'.consumed} target={n}"
+    (← IO.getStdout).putStrLn ("T " ++ (if tags.isEmpty then "-" else ",".intercalate tags) ++ (if d'.consumed ≠ d1.consumed then ",eof" else ""))
+    let d' ← printObs d' evs false
+    loop wt h d'
   | ["adv", n] =>
     let (d', evs, tags, ok) := advance wt d n.toNat! [] []
     if !ok then
@@ -162,6 +188,34 @@ partial def loop (wt : WidthTable) (h : IO.FS.Stream) (d : DState) : IO Unit := 
     (← IO.getStdout).putStrLn "T eof"
     let d' ← printObs d' [] false
     loop wt h d'
+  | ["key", flags, mok, app, code, rune, md, event, shifted, base, text] =>
+    let tx := if text = "-" then [] else (text.splitOn ":").map String.toNat!
+    let ev : KeyEv := { code := code.toNat!, rune := rune.toNat!, mod := md.toNat!, event := event.toNat!,
+                        shifted := shifted.toNat!, base := base.toNat!, text := tx }
+    let out := encodeKey flags.toNat! (mok.toInt!) (app = "1") ev
+    let o ← IO.getStdout
+    o.putStrLn (hexOrDash out); o.flush
+    loop wt h d
+  | ["mouse", mode, enc, btn, press, mods, x, y] =>
+    let e : MouseEv := { btn := btn.toNat!, press := press = "1", mods := mods.toNat!, x := x.toNat!, y := y.toNat! }
+    let o ← IO.getStdout
+    (match mouseReport mode.toInt! enc.toInt! e with
+     | some b => o.putStrLn (hexOfBytes b)
+     | none => o.putStrLn "none")
+    o.flush
+    loop wt h d
+  | ["write", hx, failAt, sizes] =>
+    let b := (bytesOfHex hx).getD []
+    let sz : List Nat := if sizes = "-" then [] else (sizes.splitOn ",").map String.toNat!
+    let fa := failAt.toNat!
+    -- call k (1-based) fails when k = failAt; otherwise accepts sizes[k-1] bytes (everything beyond the script)
+    let script : WScript := (List.range (max sz.length fa)).map fun i =>
+      if i + 1 = fa then none else some (sz.getD i 1000000000)
+    let (n, e, del) := terminalWrite b script
+    let es := match e with | .nil => "nil" | .injected => "injected" | .shortWrite => "short write"
+    let o ← IO.getStdout
+    o.putStrLn s!"{n} {es} {hexOrDash del}"; o.flush
+    loop wt h d
   | ["end"] => loop wt h d
   | [] => loop wt h d
   | _ => IO.println "bad-op"; (← IO.getStdout).flush; loop wt h d
